@@ -42,7 +42,8 @@ class CGen:
             return ch.pick(BIGS, "big")
         if self.profile == "rich" and ch.chance(1, 12, "predefmacro"):
             # deterministic predefined macros (per translation unit)
-            return ch.pick(["__COUNTER__", "__LINE__", "__COUNTER__"],
+            return ch.pick(["__COUNTER__", "__LINE__", "__COUNTER__",
+                            "__STDC_HOSTED__", "(int)(__STDC_VERSION__ / 100)"],
                            "macro")
         return str(ch.draw(17, "small"))
 
